@@ -144,6 +144,16 @@ impl AsyncWrite for TcpStream {
         let conn = self.conn;
         sim_core::with(|w| w.server_poll_write(conn, buf, cx.waker()))
     }
+    /// writev(2) semantics: the slices are taken in order as one byte string, of which the
+    /// socket accepts a prefix - possibly ending in the middle of a later slice.
+    fn poll_write_vectored(self: Pin<&mut Self>, cx: &mut Context<'_>, bufs: &[io::IoSlice<'_>]) -> Poll<io::Result<usize>> {
+        let conn = self.conn;
+        let joined: Vec<u8> = bufs.iter().flat_map(|b| b.iter().copied()).collect();
+        sim_core::with(|w| {
+            w.count("net.vectored_write");
+            w.server_poll_write(conn, &joined, cx.waker())
+        })
+    }
     fn poll_flush(self: Pin<&mut Self>, _cx: &mut Context<'_>) -> Poll<io::Result<()>> {
         Poll::Ready(Ok(()))
     }
